@@ -4,9 +4,9 @@
    it exactly — is C07's "consumes exactly the bytes its writer produced"; the composition over
    whole files is exercised by the correspondence run: every field of every generated file.)
    Statements only; proofs in StatusFacts.v. *)
-From Sbdf Require Import ImpCall Gen.Prog ImpFacts ImpFacts7 ImpFactsFrame.
+From Sbdf Require Import Imp ImpCall Gen.Prog ImpFacts ImpFacts7 ImpFactsFrame ImpFactsCmp ImpFactsHeap ImpFactsRead.
 From Coq Require Import String List.
-From Sbdf Require Import File PrimFacts VaFacts SliceFacts StatusFacts LeafTie.
+From Sbdf Require Import File PrimFacts VaFacts SliceFacts TmFacts FileFacts StatusFacts CorruptFacts LeafTie.
 From Sbdf.Gen Require Leaf.
 From Sbdf.Gen Require Facts.
 Local Open Scope Z_scope.
@@ -138,3 +138,75 @@ Example C09_source_runs :
   (match callE prog_env 100 prog_sbdf_fh_read [tok; tok; tok] [223; 90; 1; 1; 0] 0 with OReturn v _ => Some v | _ => None end) = Some (VInt SBDF_ERROR_MAGIC_NUMBER_MISSING) /\
   (match callE prog_env 100 prog_sbdf_fh_read [tok; tok; tok] [223; 91; 1; 1] 0 with OReturn v _ => Some v | _ => None end) = Some (VInt SBDF_ERROR_IO).
 Proof. repeat split; vm_compute; reflexivity. Qed.
+
+(* sbdf_read_string from the source (length header, allocation, bulk fread into the fresh block,
+   terminator): for EVERY byte stream - hostile length headers included: negative, INT_MAX, longer than
+   what follows - every memory m and every allocation oracle k, the call returns exactly the status of
+   the model's read_string (negative -> invalid size; INT_MAX -> out of memory, no allocation attempted;
+   short payload -> i/o error), on success the fresh block holds the length, the bytes and the
+   terminator and the stream is advanced past them; the interpreter never faults, so no read or write
+   falls outside the block that was allocated. *)
+Theorem C09_source_read_string : forall sx m k, Forall byte sx ->
+  exists f0, forall f, (f0 <= f)%nat -> exists fin st,
+    callH prog_env f prog_sbdf_read_string [tok; tok] m k sx = OReturn (VInt st) fin /\
+    match read_string false None sx with
+    | Ok (bytes, rest) =>
+        if k =? 0 then st = SBDF_ERROR_OUT_OF_MEMORY /\ inb fin = m
+        else st = SBDF_OK /\ inb fin = str_mem m bytes [] /\ lookup "*s"%string (vars fin) = Some (VPtr RIn (zlen m + 4)) /\
+             lookup strm_var (vars fin) = Some (VBytes rest)
+    | Err e => (st = e \/ (k = 0 /\ st = SBDF_ERROR_OUT_OF_MEMORY)) /\ exists blk, inb fin = m ++ blk
+    end.
+Proof. exact read_string_source. Qed.
+Print Assumptions C09_source_read_string.
+
+Example C09_source_read_string_runs :
+  (match callH prog_env 100 prog_sbdf_read_string [tok; tok] [7] (-1) [2; 0; 0; 0; 104; 105; 9] with OReturn v fin => Some (v, inb fin, lookup strm_var (vars fin)) | _ => None end)
+     = Some (VInt SBDF_OK, [7; 3; 0; 0; 0; 104; 105; 0], Some (VBytes [9])) /\
+  (match callH prog_env 100 prog_sbdf_read_string [tok; tok] [7] (-1) [255; 255; 255; 255; 1] with OReturn v _ => Some v | _ => None end) = Some (VInt SBDF_ERROR_INVALID_SIZE) /\
+  (match callH prog_env 100 prog_sbdf_read_string [tok; tok] [7] (-1) [255; 255; 255; 127; 1] with OReturn v _ => Some v | _ => None end) = Some (VInt SBDF_ERROR_OUT_OF_MEMORY) /\
+  (match callH prog_env 100 prog_sbdf_read_string [tok; tok] [7] (-1) [3; 0; 0; 0; 1; 2] with OReturn v _ => Some v | _ => None end) = Some (VInt SBDF_ERROR_IO).
+Proof. repeat split; vm_compute; reflexivity. Qed.
+
+(* ---- composition over whole files (CorruptFacts.v).  For every well-formed table (any metadata,
+   any number of slices written before the corrupted place) and whatever bytes follow the corrupted
+   field: the session delivers the table metadata and exactly the slices in front, unchanged, and ends
+   with the status that names the problem.  Position 1: where slice number |sls| (or the end marker)
+   begins.  Position 2: where column number |done| of that slice begins. *)
+Theorem C09_file_slice_position : forall swp meta sls names rest, wf_file meta sls names ->
+  let pre := enc_header ++ enc_tm swp meta names ++ concat (map (enc_ts swp) sls) in
+  let run tail := read_table swp None None (enc_header ++ enc_tm swp meta names ++ concat (map (enc_ts swp) sls) ++ tail) in
+  let got st tail := (Some (read_back meta sls names), st, tail) in
+  (forall b, b <> 223 -> run (b :: rest) = got SBDF_ERROR_MAGIC_NUMBER_MISSING (b :: rest)) /\
+  (forall b, b <> 91 -> run (223 :: b :: rest) = got SBDF_ERROR_MAGIC_NUMBER_MISSING (223 :: b :: rest)) /\
+  run (223 :: 91 :: 5 :: rest) = got SBDF_TABLEEND (223 :: 91 :: 5 :: rest) /\
+  (forall g, g <> 5 -> g <> 3 -> run (223 :: 91 :: g :: rest) = got SBDF_ERROR_UNEXPECTED_SECTION_ID (223 :: 91 :: g :: rest)) /\
+  (forall v, i32_range v -> v < 0 -> run ([223; 91; 3] ++ enc32 swp v ++ rest) = got SBDF_ERROR_INVALID_SIZE ([223; 91; 3] ++ enc32 swp v ++ rest)) /\
+  (forall v, i32_range v -> 0 <= v -> v <> zlen (tcols meta) ->
+     run ([223; 91; 3] ++ enc32 swp v ++ rest) = got SBDF_ERROR_COLUMN_COUNT_MISMATCH ([223; 91; 3] ++ enc32 swp v ++ rest)).
+Proof. exact file_slice_position. Qed.
+Print Assumptions C09_file_slice_position.
+
+Theorem C09_file_column_position : forall swp meta sls names done rest, wf_file meta sls names ->
+  (forall c, In c done -> wf_cs c) -> zlen done < zlen (tcols meta) ->
+  let run tail := read_table swp None None (enc_header ++ enc_tm swp meta names ++ concat (map (enc_ts swp) sls) ++
+                    [223; 91; 3] ++ enc32 swp (zlen (tcols meta)) ++ concat (map (enc_cs swp) done) ++ tail) in
+  let ends st t := fst (fst t) = Some (read_back meta sls names) /\ snd (fst t) = st in
+  (forall b, b <> 223 -> ends SBDF_ERROR_MAGIC_NUMBER_MISSING (run (b :: rest))) /\
+  (forall b, b <> 91 -> ends SBDF_ERROR_MAGIC_NUMBER_MISSING (run (223 :: b :: rest))) /\
+  (forall g, g <> 4 -> ends SBDF_ERROR_UNEXPECTED_SECTION_ID (run (223 :: 91 :: g :: rest))) /\
+  (forall e vt, e <> SBDF_PLAINARRAYENCODINGTYPEID -> e <> SBDF_RUNLENGTHENCODINGTYPEID -> e <> SBDF_BITARRAYENCODINGTYPEID ->
+     ends SBDF_ERROR_UNKNOWN_VALUEARRAY_ENCODING (run ([223; 91; 4] ++ e :: vt :: rest))) /\
+  (forall v n, wf_va v -> byte_ok (vty v) -> i32_range n -> n < 0 ->
+     ends SBDF_ERROR_INVALID_SIZE (run ([223; 91; 4] ++ enc_va swp v ++ enc32 swp n ++ rest))).
+Proof. exact file_column_position. Qed.
+Print Assumptions C09_file_column_position.
+
+Theorem C09_file_metadata_position : forall swp rest,
+  (forall g, g <> 2 -> read_table swp None None (enc_header ++ 223 :: 91 :: g :: rest) = (None, SBDF_ERROR_UNEXPECTED_SECTION_ID, 223 :: 91 :: g :: rest)) /\
+  (forall v, i32_range v -> v < 0 ->
+     read_table swp None None (enc_header ++ [223; 91; 2] ++ enc32 swp v ++ rest) = (None, SBDF_ERROR_INVALID_SIZE, [223; 91; 2] ++ enc32 swp v ++ rest)) /\
+  (forall b, b <> 223 -> read_table swp None None (b :: rest) = (None, SBDF_ERROR_MAGIC_NUMBER_MISSING, b :: rest)) /\
+  (forall b, b <> 91 -> read_table swp None None (223 :: b :: rest) = (None, SBDF_ERROR_MAGIC_NUMBER_MISSING, 223 :: b :: rest)) /\
+  (forall g, g <> 1 -> read_table swp None None (223 :: 91 :: g :: rest) = (None, SBDF_ERROR_UNEXPECTED_SECTION_ID, 223 :: 91 :: g :: rest)).
+Proof. exact file_metadata_position. Qed.
+Print Assumptions C09_file_metadata_position.
